@@ -12,5 +12,6 @@ import (
 // dispatch code (what acceptLoop does for every accepted socket).
 func (c *Coordinator) VerifHandlePeerConnection(conn net.Conn) { c.handlePeerConnection(conn) }
 
-// VerifNonceCache returns the cache Start() constructed.
+// VerifNonceCache returns the replay cache the coordinator currently holds
+// (nil while it has not constructed one).
 func (c *Coordinator) VerifNonceCache() *security.NonceCache { return c.nonceCache }
